@@ -140,6 +140,13 @@ def who(ctx):
         # every store in trigger is dominated by a branch on activated (false -> return false)
         stores = [op for op in atomic_ops(f) if op["op"] in ("store", "rmw", "cas")]
         loads = [op for op in atomic_ops(f) if op["op"] == "load" and atomic_field_of(f, op) == (CLS, "activated")]
+        # reading through a const accessor (isActive()) is the same read
+        from ..cv import shared_fields_read
+        for c in f.stmts.values():
+            if c["k"] == "CXXMemberCallExpr" and c.get("obj") and path(f, f.s(c["obj"])) == "this":
+                h = ctx.fb.callee_fn(f, c)
+                if h is not None and h.rec == CLS and h.constm and shared_fields_read(ctx, h, CLS) == ["activated"]:
+                    loads.append({"st": c})
         ok = bool(loads) and all(any(f.dominates(f.pos_of(l["st"]), f.pos_of(s["st"])) for l in loads) for s in stores)
         ctx.ob(rid, ok, f.where, "trigger() tests activated before it writes anything", "", fn=f.label, inst=f.qname)
         rets = [s for s in f.stmts.values() if s["k"] == "ReturnStmt"]
